@@ -688,7 +688,7 @@ class Exec:
             if len(v) != n:
                 raise RaiseEx("ValueError")
             return list(v)
-        if isinstance(v, _Unpackable):
+        if isinstance(v, _Unpackable) or hasattr(v, "unpack"):
             return v.unpack(self, n)
         raise Unsupported(f"cannot unpack {type(v).__name__} into {n}")
 
